@@ -241,8 +241,7 @@ PROPS = {
         check_module="C04Check",
         theorems={t: [] for t in [
             "C04_compile_total", "C04_compile_never_diverges", "C04_super_depth_total", "C04_patch_code_complete",
-            "C04_compile_total_zero_name_refuted", "C04_compile_total_zero_path_refuted",
-            "C04_compile_total_zero_label_refuted",
+            "C04_zero_name_repaired", "C04_zero_path_repaired", "C04_zero_label_repaired",
             "C04_run_total", "C04_step_no_abort_partial", "C04_step_pre_entry_state", "C04_invalid_opcode_aborts",
             "C04_empty_call_stack_aborts", "C04_full_value_stack_is_stackoverflow", "C04_full_value_stack_scalar_nil",
             "C04_full_call_stack_is_callstackoverflow", "C04_full_call_stack_call_function",
@@ -297,9 +296,8 @@ PROPS = {
             "stack-overflow handler (SIGABRT); serde_json / serde_yaml as the loaders",
         ],
         assumptions=[
-            "compile_total holds on C04Proofs.module_in_domain (decidable): estimated output below 2^32 bytes, and no hashed "
-            "name / card index path with FNV-1a hash 0 (debug builds), no function or closure label handle 0 (every build) - "
-            "the excluded modules exist and crash the crate (N-C04-1..3, C04_compile_total_zero_*_refuted)",
+            "compile_total holds on C04Proofs.module_in_domain (decidable): estimated output below 2^32 bytes (the former "
+            "conditions on zero handles went with 3f22e7c: N-C04-1..3 repaired, C04_zero_*_repaired)",
             "PARTIAL run_no_abort: one step, 37 of 47 opcodes, under step_pre; instructions that look keys up in tables, "
             "natives and the upvalue instructions are not covered (C04VmProofs.v header lists every abort site of Vm.v)",
             "native stack exhaustion and aborts are runtime behaviour: observed per child process, not derivable from the "
